@@ -162,6 +162,27 @@ def check_case(ctx: Ctx, c: Dict[str, Any], k: int = 0) -> None:
                 y0 = guarded("data(arg) source", lambda: t_id(x))
                 if y0 is not None and max_err(y0, x) > 1e-5:
                     bad("data(arg) source", "taking a copy with other parameters changed the transform it was taken from")
+    # ... the transformer with its defaults: points w.r.t. the transform's own grid / cube axes
+    pst = guarded("PointSetTransformer", lambda: PointSetTransformer(t), form="defaults")
+    if pst is not None:
+        cmp("PointSetTransformer[defaults]", guarded("PointSetTransformer", lambda: pst(x), form="defaults"), apply_hom(M, P).unsqueeze(0), form="defaults")
+    # ... a displacement field FITTED to a given flow field describes that flow: given on its own grid with cube or world vectors, and on another grid
+    if name == "DisplacementFieldTransform":
+        from deepali.data.flow import FlowFields
+
+        co = g.coords(align_corners=g.align_corners()).reshape(-1, D)
+        exp_u = apply_hom(M, co.to(torch.float64)) - co.to(torch.float64)
+        u_own = exp_u.reshape(*g.shape, D).movedim(-1, 0).unsqueeze(0).float()
+        ff_own = FlowFields(u_own, g, Axes.from_grid(g))
+        for how, ff in (("own grid, cube axes", ff_own), ("own grid, world axes", ff_own.axes(Axes.WORLD)), ("own grid, grid axes", ff_own.axes(Axes.GRID))):
+            for h in ("tensor", "param"):
+                tf = guarded("fit", lambda: build(name, parts, g, h, set_params=False).fit(ff), how=how, holder1=h)
+                if tf is None:
+                    continue
+                u = guarded("fit.disp", lambda: tf.disp(), how=how)
+                if u is not None:
+                    cmp("fit.disp", u[0].movedim(0, -1).reshape(-1, D), exp_u, tol=ATOL * scale * 20, mask=inside(co.to(torch.float64)).unsqueeze(-1).expand_as(exp_u), how=how)
+                cmp("fit.call", guarded("fit.call", lambda: tf(x), how=how), apply_hom(M, P).unsqueeze(0), tol=ATOL * scale * 5, how=how)
     # 4. dense displacement on its own grid, on the same grid with the other cube convention, and on another grid
     for view, gg in (("disp[own]", g), ("disp[own, other align_corners]", g.align_corners(not g.align_corners())), ("disp[other]", g2)):
         ax = Axes.from_grid(gg)
@@ -184,6 +205,21 @@ def check_case(ctx: Ctx, c: Dict[str, Any], k: int = 0) -> None:
     for src_name, src in (("other", g2), ("own", g)):
         src_world = src.index_to_world(src.coords(normalize=False).to(torch.float32)).to(torch.float64)
         img = (src_world @ a + b).float().unsqueeze(0).unsqueeze(0)
+        if src_name == "own":
+            # the transformer with its defaults: target = the transform's grid, source = target
+            itd = guarded("ImageTransformer", lambda: ImageTransformer(t), target="default", source="default")
+            outd = guarded("ImageTransformer", lambda: itd(img), target="default", source="default") if itd is not None else None
+            if outd is not None:
+                twd = g.index_to_world(g.coords(normalize=False).to(torch.float32)).to(torch.float64).reshape(-1, D)
+                wpd = apply_hom(W, twd)
+                insd = (g.world_to_cube(wpd.float(), align_corners=True, decimals=None).abs() <= 0.97).all(dim=-1)
+                insd &= inside(g.transform_points(twd.float(), axes="world", to_axes=cube, decimals=None).to(torch.float64)) if nonrigid else True
+                if outd.numel() == wpd.shape[0] and int(insd.sum()) >= 3:
+                    errd = float((outd.reshape(-1).to(torch.float64) - (wpd @ a + b))[insd].abs().max())
+                    if errd > 3e-4 * max(1.0, float((wpd @ a + b).abs().max())):
+                        bad("ImageTransformer", f"with default target/source the warped ramp differs from source(W(x)) by {errd:.3g}", target="default", source="default")
+                elif outd.numel() != wpd.shape[0]:
+                    bad("ImageTransformer", f"with default target the output has {outd.numel()} samples, the transform's grid has {wpd.shape[0]}", target="default", source="default")
         for tgt_name, tgt in (("own", g), ("own-resized", g.resize(tuple(n + 3 for n in g.size()))), ("other", g2.resize(tuple(n + 1 for n in g2.size())))):
             it = guarded("ImageTransformer", lambda: ImageTransformer(t, target=tgt, source=src, padding="border"), target=tgt_name, source=src_name)
             if it is None:
